@@ -12,6 +12,8 @@ THEOREMS = [
     "C09_builder_new", "C09_builder_stable", "C09_builder_stable_names", "C09_builder_locals",
     "C09_builder_history_split", "C09_max_id_overflow_refuted", "C09_find_lowest_overflow_refuted",
     "C09_find_lowest_empty_refuted", "C09_find_complete_empty_refuted",
+    "C09_symbol_identifier", "C09_symbol_identifier_other", "C09_symbol_identifier_beyond",
+    "C09_auto_token_sid", "C09_auto_token_out_of_range", "C09_auto_token_text",
 ]
 
 U64 = 1 << 64
@@ -21,7 +23,6 @@ SYSTEM = [b"$ion", b"$ion_1_0", b"$ion_symbol_table", b"name", b"version", b"imp
 
 K_EMPTY = "empty-text-not-indexed"
 K_OVER = "import-maxid-sum-overflows-uint64"
-K_SIGN = "symbol-identifier-accepts-sign"
 K_I64 = "sid-above-int64-wraps-negative"
 
 
@@ -186,10 +187,6 @@ def spec_identifier(t):
     return None
 
 
-def go_identifier_signed(t):
-    return len(t) > 2 and t[:1] == b"$" and t[1:2] in (b"+", b"-") and all(48 <= ch <= 57 for ch in t[2:])
-
-
 # ---------------------------------------------------------------------------
 # parsing the answers
 # ---------------------------------------------------------------------------
@@ -266,16 +263,14 @@ def judge_dump(sp, d, fails, what):
         # newSymbolToken: $n goes by id, everything else by text
         n = spec_identifier(txt)
         if n is not None:
-            if n >= I63:
-                continue
-            expa = ("e", 0) if n > tot else (ox(sp.text_of(n)), n)
+            # an ID of 2^63 or more has no int64 LocalSID: it is undefined like any ID above MaxID
+            expa = ("e", 0) if (n > tot or n >= I63) else (ox(sp.text_of(n)), n)
             if auto != expa:
                 bad(K, "newSymbolToken(%s) = %s, expected %s" % (hx(txt), auto, expa))
         else:
             expa = (hx(txt), -1 if low is None else low)
             if auto != expa:
-                k2 = K_SIGN if go_identifier_signed(txt) else k64
-                bad(k2, "newSymbolToken(%s) = %s, expected %s" % (hx(txt), auto, expa))
+                bad(k64, "newSymbolToken(%s) = %s, expected %s" % (hx(txt), auto, expa))
     for (i, fbi, tk) in d["d"]:
         if 0 <= i < U64:
             exp = ox(sp.text_of(i))
@@ -307,12 +302,11 @@ def judge(line, go):
     if cmd == "symident":
         txt = unhx(c.next())
         n = spec_identifier(txt)
-        if n is not None and n >= I63:
-            return []
-        exp = "ok -1 0" if n is None else "ok %d 1" % n
+        # $<digits> and nothing else; a number that does not fit the int64 result is "not an identifier"
+        # (newSymbolToken then rejects the text, the writers quote it)
+        exp = "ok -1 0" if (n is None or n >= I63) else "ok %d 1" % n
         if go != exp:
-            fails.append((K_SIGN if go_identifier_signed(txt) else None,
-                          "symbolIdentifier(%s) = %s, the Ion grammar gives %s" % (hx(txt), go, exp)))
+            fails.append((None, "symbolIdentifier(%s) = %s, the Ion grammar gives %s" % (hx(txt), go, exp)))
         return fails
     if cmd == "sst":
         sh = parse_shared(c)
@@ -456,7 +450,7 @@ def classify_case(line, m, g):
 # ---------------------------------------------------------------------------
 # generators
 # ---------------------------------------------------------------------------
-PROBES = [b"", b"a", b"b", b"name", b"$ion", b"c", b"$10", b"$0", b"$+4", b"$-1", b"$99"]
+PROBES = [b"", b"a", b"b", b"name", b"$ion", b"c", b"$10", b"$0", b"$+4", b"$-1", b"$99", b"$9223372036854775808"]
 
 
 def lists_upto(alpha, n):
@@ -713,7 +707,7 @@ EXPLANATION = (
     "x locals over {'',a,b,name} of size 0..2, plus no import x locals of size 0..3; E2: two imports each from 68 shapes "
     "(lists over {'',a,b} size 0..2 x {no Adjust, max_id 0..3}, bogus 0..2) x locals size 0..1 (every 3rd in quick, all in thorough); "
     "E3: three imports from 17 shapes x 3 local lists (every 4th in quick); E4: Adjust-after-Adjust (0..4)^2 over lists of size 0..3; "
-    "E5: user-supplied $ion tables; every line queries every id 0..MaxID+2 and 11 probe texts; (K6-lst-random) up to 6 imports of up to 40 "
+    "E5: user-supplied $ion tables; every line queries every id 0..MaxID+2 and 12 probe texts; (K6-lst-random) up to 6 imports of up to 40 "
     "symbols with max_id edge values up to 2^64-1; (K6-builder) every Add sequence of length <= 4 over {'',a,b,name} at every "
     "Build split point under 5 import configurations, plus random histories up to 40 Adds; (K6-sst) every Adjust chain of length <= 2 "
     "over 0..4; (K6-catalog) every catalog of <= 3 entries over {a,b}x{1,2,3}; (K6-symident) every string of length <= 4 over $+-07_a. "
